@@ -58,7 +58,7 @@ Qed.
 
 (* ---------- the specialised clause *)
 Definition specialise (e : cfg) (c : clause) (mu : row) : clause :=
-  with_SPO c (spec_S c mu) (spec_P c mu (spec_P_anchor c mu)) (objres_opt (spec_O e c mu (spec_O_anchor c mu))).
+  with_SPO c (spec_S e c mu) (spec_P e c mu (spec_P_anchor c mu)) (objres_opt (spec_O e c mu (spec_O_anchor c mu))).
 
 Lemma cell_to_object_valid : forall e v, strlit_invalid e = false -> cell_to_object e v <> ObjInvalid.
 Proof. intros e v H. destruct v; cbn; try discriminate. rewrite H. discriminate. Qed.
@@ -76,7 +76,7 @@ Proof.
   rewrite E2. cbn [bind]. fold (specialise e c mu).
   assert (Hv : spec_O e c mu (spec_O_anchor c mu) <> ObjInvalid).
   { unfold spec_O. destruct (spec_O_anchor c mu); [discriminate|].
-    destruct (bound_value mu (cOB c) (cOA c)); [apply cell_to_object_valid; exact Hsl|discriminate]. }
+    destruct (bound_value e mu (cOB c) (cOA c)); [apply cell_to_object_valid; exact Hsl|discriminate]. }
   rewrite Hfix, Hopt.
   assert (G : forall x : outcome (list row),
             bind x (fun rows => match filter (compatible mu) rows with
@@ -227,11 +227,11 @@ Proof.
 Qed.
 
 (* ---------- specialising with the row's values only adds conditions that compatible rows satisfy anyway *)
-Lemma bound_value_some : forall mu b1 b2 v, bound_value mu b1 b2 = Some v -> get mu b1 = Some v \/ get mu b2 = Some v.
+Lemma bound_value_some : forall e mu b1 b2 v, bound_value e mu b1 b2 = Some v -> get mu b1 = Some v \/ get mu b2 = Some v.
 Proof.
-  intros mu b1 b2 v H. unfold bound_value in H.
+  intros e mu b1 b2 v H. unfold bound_value in H.
   destruct (get mu b1) as [v1|], (get mu b2) as [v2|]; try discriminate; auto.
-  destruct (cell_eqb v1 v2); [|discriminate]. inversion H; subst. auto.
+  destruct (same_value e v1 v2); [|discriminate]. inversion H; subst. auto.
 Qed.
 
 Lemma nokey_ne : forall mu k v, get mu [] = None -> get mu k = Some v -> k <> [].
@@ -255,17 +255,17 @@ Lemma fm_special : forall e c lo t r mu, d3c c -> ks e = true -> get mu [] = Non
 Proof.
   intros e c lo t r mu D Hks Hn B C Si. unfold fm, specialise. cbn [cS cP cO with_SPO].
   apply orb_false_iff in Si. destruct Si as [SiP SiO].
-  assert (HS : match spec_S c mu with Some s => node_eqb s (tsub t) | None => true end =
+  assert (HS : match spec_S e c mu with Some s => node_eqb s (tsub t) | None => true end =
                match cS c with Some s => node_eqb s (tsub t) | None => true end);
-  [|assert (HPp : match spec_P c mu (spec_P_anchor c mu) with Some p => pp e p (tpred t) | None => true end =
+  [|assert (HPp : match spec_P e c mu (spec_P_anchor c mu) with Some p => pp e p (tpred t) | None => true end =
                   match cP c with Some p => pp e p (tpred t) | None => true end);
     [|assert (HOo : match objres_opt (spec_O e c mu (spec_O_anchor c mu)) with Some o => obj_key_eqb o (tobj t) | None => true end =
                     match cO c with Some o => obj_key_eqb o (tobj t) | None => true end);
       [|rewrite HS, HPp, HOo; reflexivity]]].
   - (* subject *)
     unfold spec_S. destruct (cS c); [reflexivity|].
-    destruct (bound_value mu (cSB c) (cSA c)) as [[| | n | | |]|] eqn:Eb; try reflexivity.
-    destruct (bound_value_some _ _ _ _ Eb) as [G|G];
+    destruct (bound_value e mu (cSB c) (cSA c)) as [[| | n | | |]|] eqn:Eb; try reflexivity.
+    destruct (bound_value_some _ _ _ _ _ Eb) as [G|G];
       (destruct (binder_cell c t r mu _ XSubj _ D B C Hn G) as [w [X E]];
        [cbn; auto 6|cbn in X; inversion X; subst; cbn in E; exact E]).
   - (* predicate *)
@@ -274,10 +274,10 @@ Proof.
     + apply andb_prop in En. destruct En as [En1 En2]. apply negb_true_iff in En1. apply negb_true_iff in En2.
       apply is_empty_false in En2.
       destruct (p_anchor_some c t r D B En2) as [a [Ha Gr]].
-      assert (HBp : match (match bound_value mu (cPB c) (cPA c) with Some (CPred p) => Some p | _ => None end) with
+      assert (HBp : match (match bound_value e mu (cPB c) (cPA c) with Some (CPred p) => Some p | _ => None end) with
                     | Some p => pp e p (tpred t) | None => true end = true).
-      { destruct (bound_value mu (cPB c) (cPA c)) as [[| | |p| |]|] eqn:Eb; try reflexivity.
-        destruct (bound_value_some _ _ _ _ Eb) as [G'|G'];
+      { destruct (bound_value e mu (cPB c) (cPA c)) as [[| | |p| |]|] eqn:Eb; try reflexivity.
+        destruct (bound_value_some _ _ _ _ _ Eb) as [G'|G'];
           (destruct (binder_cell c t r mu _ XPred _ D B C Hn G') as [w [X E]];
            [cbn; auto 8|cbn in X; inversion X; subst; cbn in E; rewrite (pp_key e p (tpred t) Hks); exact E]). }
       destruct (get mu (cPAncB c)) as [[| | | | |ta]|] eqn:G; try exact HBp.
@@ -286,16 +286,16 @@ Proof.
       rewrite (pp_key e _ (tpred t) Hks). unfold pred_key_eqb. cbn [pid panchor]. rewrite Ha, E, andb_true_r.
       rewrite En1 in SiP. unfold ignore_pred in SiP. apply orb_false_iff in SiP. destruct SiP as [S1 _].
       apply negb_false_iff in S1. rewrite str_eqb_sym. exact S1.
-    + destruct (bound_value mu (cPB c) (cPA c)) as [[| | |p| |]|] eqn:Eb; try reflexivity.
-      destruct (bound_value_some _ _ _ _ Eb) as [G'|G'];
+    + destruct (bound_value e mu (cPB c) (cPA c)) as [[| | |p| |]|] eqn:Eb; try reflexivity.
+      destruct (bound_value_some _ _ _ _ _ Eb) as [G'|G'];
         (destruct (binder_cell c t r mu _ XPred _ D B C Hn G') as [w [X E]];
          [cbn; auto 8|cbn in X; inversion X; subst; cbn in E; rewrite (pp_key e p (tpred t) Hks); exact E]).
   - (* object *)
     unfold spec_O, spec_O_anchor. destruct (cO c); [reflexivity|].
-    assert (HB : match objres_opt (match bound_value mu (cOB c) (cOA c) with Some v => cell_to_object e v | None => ObjNone end) with
+    assert (HB : match objres_opt (match bound_value e mu (cOB c) (cOA c) with Some v => cell_to_object e v | None => ObjNone end) with
                  | Some o => obj_key_eqb o (tobj t) | None => true end = true).
-    { destruct (bound_value mu (cOB c) (cOA c)) as [v|] eqn:Eb; [|reflexivity].
-      destruct (bound_value_some _ _ _ _ Eb) as [G'|G'];
+    { destruct (bound_value e mu (cOB c) (cOA c)) as [v|] eqn:Eb; [|reflexivity].
+      destruct (bound_value_some _ _ _ _ _ Eb) as [G'|G'];
         (destruct (binder_cell c t r mu _ XObj _ D B C Hn G') as [w [X E]];
          [cbn; auto 12|cbn in X; inversion X; subst;
           destruct v; cbn; try reflexivity; try (destruct (strlit_invalid e); reflexivity);
